@@ -447,7 +447,15 @@ func (c *Ctx) ruleInboundQoS2(id string) {
 			continue
 		}
 		c.R.Fn(c.fname(cb))
-		paths, err := core.EnumPaths(cb, core.PathOpts{})
+		// helpers of the callback that hold the hand-off (exchange.release()) are spliced into its paths
+		paths, err := c.pathsInlined(cb, core.PathOpts{}, func(cl *core.Call) bool { return c.isHandoffCall(cl, hs) != nil }, func(g *ssa.Function) bool {
+			for _, h := range hs {
+				if h.fn == g {
+					return true
+				}
+			}
+			return false
+		})
 		if err != nil {
 			ru.Undecided(base+"|callback", c.where(cb, cb), err.Error())
 			continue
@@ -491,11 +499,23 @@ func (c *Ctx) ruleInboundQoS2(id string) {
 		// provenance of the forwarded publish and of the PUBCOMP id
 		provBad := ""
 		midVal := complitField(site.Arg(1), "MessageId")
+		if midVal == nil {
+			// the PUBREC is kept in a field of a small struct built by a constructor (exchange.pubrec)
+			midVal = complitField(deepStrip(site.Arg(1)), "MessageId")
+		}
+		// the object whose MessageId the PUBREC carries
+		var midOwner ssa.Value
+		if ld, ok := conversionsOnly(midVal).(*ssa.UnOp); ok && midVal != nil && ld.Op == token.MUL {
+			if fa, ok := ld.X.(*ssa.FieldAddr); ok && fieldNameOf(fa.X.Type(), fa.Field) == "MessageId" {
+				midOwner = fa.X
+			}
+		}
 		for _, fw := range forwards {
 			h := c.isHandoffCall(fw, hs)
 			pub := fw.Common.Args[h.pubIdx]
 			pt := core.Term(pub)
-			if midVal == nil || !(core.Term(midVal) == "("+pt+").MessageId" || core.Term(midVal) == "(*"+pt+").MessageId" || containsTerm(core.Term(midVal), pt)) {
+			sameObj := midOwner != nil && same(midOwner, pub)
+			if midVal == nil || !(sameObj || core.Term(midVal) == "("+pt+").MessageId" || core.Term(midVal) == "(*"+pt+").MessageId" || containsTerm(core.Term(midVal), pt)) {
 				provBad = "the forwarded publish is not the PUBLISH whose identifier was registered with the PUBREC (" + short(pt, 80) + " vs " + short(core.Term(midVal), 80) + ")"
 			}
 			cc := closureArg(fw.Common.Args[h.cbIdx])
@@ -510,7 +530,17 @@ func (c *Ctx) ruleInboundQoS2(id string) {
 				continue
 			}
 			pcid := complitField(encs[0].Args()[1], "MessageId")
-			if pcid == nil || !reachesParam(pcid, cb, cbParamIdx(cb, 2)) {
+			// the identifier of the received PUBREL, or — the same number, since the table only resolves an entry with
+			// the acknowledgement that carries its identifier — that of the registered PUBREC / of the PUBLISH itself
+			registeredID := false
+			if pcid != nil {
+				if ld, ok := conversionsOnly(pcid).(*ssa.UnOp); ok && ld.Op == token.MUL {
+					if fa, ok := ld.X.(*ssa.FieldAddr); ok && fieldNameOf(fa.X.Type(), fa.Field) == "MessageId" {
+						registeredID = same(fa.X, site.Arg(1)) || same(fa.X, pub) || (midOwner != nil && same(fa.X, midOwner))
+					}
+				}
+			}
+			if pcid == nil || (!reachesParam(pcid, cb, cbParamIdx(cb, 2)) && !registeredID) {
 				provBad = "the PUBCOMP identifier does not derive from the received PUBREL (3rd parameter of the in-flight callback)"
 			}
 		}
